@@ -1,5 +1,5 @@
 (* C19 — history model of client session resumption (FIXED code: with
-   fixes/C19-ems-downgrade.diff applied to loadSession).
+   fixes/C19-ems-downgrade.diff applied to loadSession and fixes/C19-ticket-assert.diff to uLoadSession).
 
    One connection = build the hello (uTLS: u_conn.go:113-222 buildHandshakeState /
    uLoadSession / uApplyPatch, u_session_controller.go:85-97,148-213,265-316; crypto/tls
@@ -34,7 +34,7 @@ Definition E_VERSION : N := 4.     (* no common protocol version *)
 Definition E_NO_GROUP : N := 5.    (* TLS 1.3: no common group *)
 Definition E_CERT : N := 6.        (* certificate verification failed on a full handshake *)
 Definition E_NO_SUITE : N := 7.
-Definition P_TICKET_ASSERT : N := 1. (* u_session_controller.go:190 uAssert in setSessionTicketToUConn *)
+Definition P_TICKET_ASSERT : N := 1. (* u_session_controller.go:190 uAssert in setSessionTicketToUConn; unreachable since fix C19-ticket-assert *)
 Definition P_PSK_NOT_LAST : N := 2.  (* u_session_controller.go:285 *)
 Definition P_MULTI_TICKET : N := 3.  (* u_session_controller.go:275 *)
 Definition P_NIL_EARLY : N := 4.     (* u_session_controller.go:182 earlySecret.Secret() on nil *)
@@ -201,10 +201,11 @@ Definition build (ca : cache) (c : conn) : built :=
   | None => finish None
   | Some (k, s) =>
     if s_vers s =? V12 then
-      (* u_conn.go:203-206: initSessionTicketExt returns early without the extension, then the uAssert fires *)
-      if has XTicket (sp_exts sp) then finish (Some (ViaTicket, s)) else BPanic ca' P_TICKET_ASSERT
+      (* u_conn.go:203-213: initSessionTicketExt returns early without the extension (assertCanSkip), and
+         [fix C19-ticket-assert] the ticket is written only when the extension was initialised: the session is dropped *)
+      if has XTicket (sp_exts sp) then finish (Some (ViaTicket, s)) else finish None
     else
-      (* u_conn.go:208: every other version goes to initPskExt *)
+      (* uLoadSession, else branch: every other version goes to initPskExt *)
       if negb (has XPsk (sp_exts sp)) then finish None    (* assertCanSkip; the session is dropped *)
       else if s_vers s =? V13 then finish (Some (ViaPsk, s))
       else BPanic ca' P_NIL_EARLY
